@@ -72,6 +72,11 @@ def sig_terms(sigs, specs):
     return ct.lst(out)
 
 
+def json_key(v):
+    import json
+    return json.dumps(v, sort_keys=True)
+
+
 def flat(groups):
     return [t for g in groups for t in g]
 
@@ -189,21 +194,67 @@ class C01(Prop):
         return "%s:calls=%d:%s" % (tag, len(case["inv"]), "+".join(sorted(forms))[:40])
 
     def finding_of(self, case, obs):
+        """clause-specific: F-C01a only if every kwarg that differs from the expectation is an
+        unmentioned list-kind parameter with a non-empty declared default that arrived as [];
+        F-C01b only if a glued value containing '=' is present and the line was torn (error or
+        a different call sequence / different value of that very argument)."""
         specs = pc.ctx_specs(case["sigs"])
-        # F-C01b: value glued to a short flag and containing '='
-        for c in case["inv"]:
-            for o in pc.flat_occs(c["occs"]):
-                if o["form"] == "glued" and "=" in o["val"].get("s", ""):
-                    return "F-C01b"
-        # F-C01a: a list-kind parameter with a non-empty declared default that a call does not mention
-        for c in case["inv"]:
-            spec = specs[c["task"]]
-            mentioned = {o["arg"] for o in pc.flat_occs(c["occs"])}
+        exp = pc.expected_calls(specs, case["inv"])
+        glued_eq = [(ci, o["arg"]) for ci, c in enumerate(case["inv"]) for o in pc.flat_occs(c["occs"])
+                    if o["form"] == "glued" and "=" in o["val"].get("s", "")]
+        if "err" in obs:
+            return "F-C01b" if glued_eq and obs["err"] == "ParseError" else None
+        got = obs["ok"]["ctxs"][1:]
+        if len(got) != len(exp) or [g[0] for g in got] != [e[0] for e in exp]:
+            return "F-C01b" if glued_eq else None
+        only_list_defaults = True
+        any_diff = False
+        for ci, (g, e) in enumerate(zip(got, exp)):
+            spec = specs[case["inv"][ci]["task"]]
+            mentioned = {o["arg"] for o in pc.flat_occs(case["inv"][ci]["occs"])}
+            gd, ed = dict((k, json_key(v)) for k, v in g[1]), dict((k, json_key(v)) for k, v in e[1])
             for i, a in enumerate(spec["args"]):
-                if a["kind"] == "KList" and a["default"] not in ([], None) and i not in mentioned \
-                        and not a["incrementable"]:
-                    return "F-C01a"
+                nm = a["attr_name"] or a["names"][0]
+                if gd.get(nm) != ed.get(nm):
+                    any_diff = True
+                    is_a = (a["kind"] == "KList" and a["default"] not in ([], None) and i not in mentioned
+                            and not a["incrementable"] and gd.get(nm) == json_key({"list": []}))
+                    if not is_a:
+                        only_list_defaults = False
+        if any_diff and only_list_defaults:
+            return "F-C01a"
+        if glued_eq:
+            return "F-C01b"
         return None
+
+    def extra_checks(self, tier, seed):
+        """kwargs actually RECEIVED by the task bodies through the real Program.run (a test):
+        recording bodies, task-runner mode, --no-dedupe so that repeated identical calls all run."""
+        import random
+        rng = random.Random(seed + 101)
+        n = 150 if tier == "quick" else 2000
+        failures, evaluations = [], 0
+        for _ in range(n):
+            sigs = pc.gen_sigs(rng)
+            specs = pc.ctx_specs(sigs)
+            inv = pc.gen_invocation(rng, specs, dash_values=rng.random() < 0.2)
+            argv = flat(pc.spell_groups(specs, inv))
+            case = {"sigs": sigs, "inv": inv, "argv": argv}
+            parse_obs = pc.run_parse(sigs, argv, "core", False, purity=False)
+            if "err" in parse_obs:
+                continue                      # judged by the shard cases (F-C01b etc.)
+            r = pc.run_effects(sigs, ["--no-dedupe"] + argv)
+            evaluations += 1
+            want = [[nm, sorted(kw, key=lambda x: x[0])] for nm, kw in parse_obs["ok"]["ctxs"][1:]]
+            got = [[c[0], sorted(c[1], key=lambda x: x[0])] for c in r["calls"]]
+            if r["exc"] is not None or got != want:
+                failures.append({"case": case, "what": "task bodies received %r (exc %r) but parse_argv "
+                                 "returned %r" % (got, r["exc"], want)})
+                break
+        return [{"name": "bodies", "evaluations": evaluations, "failures": failures,
+                 "note": "Program.run(['--no-dedupe'] + argv) with recording task bodies: the kwargs each body "
+                         "receives equal the as_kwargs of the parsed contexts (which the shard cases compare "
+                         "with the expected invocation)"}]
 
     def shrink_candidates(self, case):
         inv = case["inv"]
